@@ -1,21 +1,31 @@
 /-
   C07 — Listings are complete, ordered, correctly grouped and paginate without loss.
 
-  Spec level (any key set, prefix, delimiter, marker):
-    * `entries_ascending`, `entries_complete` — what is listed, in which order;
+  Spec level (any key set, prefix, delimiter — multi-byte too —, marker):
+    * `entries_ascending`, `entries_complete`, `entries_nodup` — what is listed, in which order;
     * `restart_after_next`, `paginate_complete` — following the next markers terminates and yields
       every entry exactly once.
   Model level (`Model.Walk.walk`, the model of backend.Walk):
     * `walk_refines_spec_full` — the property at full strength, a `def … : Prop`: the unchanged code
-      violates it (negation witnesses in Vgw/Open/C07.lean);
-    * `events_sorted` — the traversal order is the key order under OrderCompatible;
-    * `walk_refines_spec_partial` — the model returns exactly the specified page when: delimiter ""
-      or "/", sibling names order-compatible, no explicit directory objects, no phantom directories,
-      no file named like a skipped directory, the prefix does not reach below a skipped directory,
-      and (delimiter "/") the marker is clear of the common prefixes (`Spec.List.markerClear`).
+      violates it (negation and one witness per dropped hypothesis in Vgw/Open/C07.lean);
+    * `events_sorted` — the traversal order is the key order iff sibling names are OrderCompatible;
+    * `emissions_are_entries` — pruning (SkipDir) is sound, what the callback adds is the entry set;
+    * `walk_refines_spec_partial` (and `…_toplevel`) — the model returns exactly the specified page
+      when: delimiter "" or "/", sibling names order-compatible, no explicit directory objects, no
+      phantom directories, no file named like a skipped directory, the prefix does not reach below a
+      skipped directory, and (delimiter "/") the marker is clear of the common prefixes
+      (`Spec.List.markerClear`);
+    * `server_issued_marker_clear`, `walk_pages_eq_spec`, `walk_paginate_complete` — markers the
+      server issues itself are clear, so the model's own pagination terminates and yields every
+      entry exactly once;
+    * `listed_objects_are_keys`, `listed_prefixes_are_rollups` — true sizes/ETags, no internal names.
+  Not reached: delimiters other than "" and "/" (the code is wrong there even for its own markers:
+  `Open.C07.delim_second_page_rejected`), explicit directory objects (wrong for "" and for "/" with
+  children; childless ones with "/" are only covered by the differential runs).
 -/
 import Vgw.Lemmas.WalkFinal
 import Vgw.Lemmas.WalkRoot
+import Vgw.Lemmas.WalkMarker
 namespace Vgw.Props.C07
 open Vgw Vgw.Model.Walk Vgw.Spec.List
 
@@ -105,11 +115,10 @@ def walk_refines_spec_full : Prop :=
     wfList top = true → Refines top g skip P D M N
 
 /-- **events_sorted**: the pre-order in which `fs.WalkDir` hands paths to the callback is the
-ascending byte order of those paths when sibling names are order-compatible. (The converse is shown
-by the witness `Open.C07.events_unsorted_witness`.) -/
-theorem events_sorted (top : List Tree) (base : Bytes) (hwf : wfList top = true) (hoc : ocList top = true) :
-    (eventsList base top).Pairwise (fun a b => blt a b = true) :=
-  eventsList_sorted top base hwf hoc
+ascending byte order of those paths exactly when sibling names are order-compatible. -/
+theorem events_sorted (top : List Tree) (base : Bytes) (hwf : wfList top = true) :
+    (eventsList base top).Pairwise (fun a b => blt a b = true) ↔ ocList top = true :=
+  ⟨oc_of_eventsList_sorted top base, eventsList_sorted top base hwf⟩
 
 /-- **pruning is sound and the emissions are the specified entries** (the core of the refinement):
 for the visible events of a forest, what the callback adds is, as a set, exactly
@@ -340,6 +349,137 @@ theorem walk_refines_spec_partial (top : List Tree) (g : GetObj) (skip : List By
         rw [List.all_eq_true]
         exact hv
 
+/-! ### pagination at model level -/
+
+/-- **markers the server issues itself are safe**: the name of any entry (what a truncated page
+returns as its next marker) is clear of every common prefix, in an order-compatible tree without
+directory objects. -/
+theorem server_issued_marker_clear (top : List Tree) (g : GetObj) (skip : List Bytes) (P D M : Bytes)
+    (hwf : wfList top = true) (hoc : ocList top = true) (hD : D = [] ∨ D = [slash])
+    (hnd : ∀ p : Bytes, g (p ++ [slash]) = none)
+    (hsi : serverIssued (keysList g skip [] top) P D M = true) :
+    markerClear (keysList g skip [] top) P D M = true := by
+  rcases hD with rfl | rfl
+  · unfold markerClear; simp
+  · exact serverIssued_markerClear top g skip P M hwf hoc hnd hsi
+
+/-- follow the MODEL's own next markers, at most `fuel` pages -/
+def walkPages (top : List Tree) (g : GetObj) (skip : List Bytes) (P D : Bytes) (N : Nat) : Nat → Bytes → List Result
+  | 0, _ => []
+  | fuel + 1, M =>
+    let r := walk ⟨P, D, M, (N : Int), g, skip⟩ top
+    if r.truncated then r :: walkPages top g skip P D N fuel r.next else [r]
+
+theorem keysList_ne_nil (g : GetObj) (skip : List Bytes) (top : List Tree) (hwf : wfList top = true) :
+    [] ∉ keysList g skip [] top := by
+  intro h
+  obtain ⟨t, ht, hk⟩ := keysList_mem g skip [] top [] h
+  have hp := keysNode_prefix g skip t [] [] hk
+  have hne := validName_ne_nil _ (wfNode_validName t (wfList_mem top hwf t ht))
+  have := List.prefix_nil.1 hp
+  simp at this
+  exact hne this
+
+theorem lastName_take_serverIssued (K : List Bytes) (P D M : Bytes) (N : Nat) (hN : 0 < N)
+    (hl : N ≤ (entries K P D M).length) :
+    serverIssued K P D (lastName ((entries K P D M).take N)) = true := by
+  have hne : (entries K P D M).take N ≠ [] := by
+    intro h
+    have := congrArg List.length h
+    rw [List.length_take, List.length_nil] at this; omega
+  have hlast : lastName ((entries K P D M).take N) = (((entries K P D M).take N).getLast hne).name := by
+    unfold lastName
+    rw [List.getLast?_eq_some_getLast hne]; rfl
+  have hmem : ((entries K P D M).take N).getLast hne ∈ entries K P D M :=
+    List.mem_of_mem_take (List.getLast_mem hne)
+  obtain ⟨k, hk, hp, _, he⟩ := (mem_entries K P D M _).1 hmem
+  unfold serverIssued
+  rw [hlast]
+  apply Bool.or_eq_true_iff.2
+  right
+  rw [List.any_eq_true]
+  exact ⟨k, hk, by simp [(isPrefixOf_iff _ _).2 hp, he]⟩
+
+/-- **the model's pagination is the specification's pagination**: starting from any marker that is
+clear of the common prefixes (in particular no marker, or any marker when there is no delimiter),
+every page the model returns while following its own next markers is the specified page. -/
+theorem walk_pages_eq_spec (top : List Tree) (g : GetObj) (skip : List Bytes) (P D : Bytes) (N : Nat)
+    (hN : 0 < N)
+    (hwf : wfList top = true) (hoc : ocList top = true) (hD : D = [] ∨ D = [slash])
+    (hnd : ∀ p : Bytes, g (p ++ [slash]) = none)
+    (hpop : populatedList g skip [] top = true)
+    (hsf : noSkipFileList skip top = true)
+    (hroot : rootClean skip P = true) :
+    ∀ (fuel : Nat) (M : Bytes), markerClear (keysList g skip [] top) P D M = true →
+      walkPages top g skip P D N fuel M =
+        (paginate (keysList g skip [] top) P D N fuel M).map (Page.toResult g)
+  | 0, _, _ => rfl
+  | fuel + 1, M, hmc => by
+    have href : Refines top g skip P D M N :=
+      walk_refines_spec_partial top g skip P D M N hwf hoc hD hnd hpop hsf hroot hmc
+    unfold Refines result at href
+    unfold walkPages paginate
+    dsimp only
+    rw [href]
+    have hN0 : ¬ N = 0 := by omega
+    by_cases ht : (entries (keysList g skip [] top) P D M).length > N
+    · have hpg : list (keysList g skip [] top) P D M N =
+          ⟨(entries (keysList g skip [] top) P D M).take N, true,
+            lastName ((entries (keysList g skip [] top) P D M).take N)⟩ := by
+        unfold list; rw [if_neg hN0]; dsimp only; rw [if_pos ht]
+      rw [hpg]
+      simp only [Page.toResult, if_true, List.map_cons]
+      congr 1
+      apply walk_pages_eq_spec top g skip P D N hN hwf hoc hD hnd hpop hsf hroot fuel
+      exact server_issued_marker_clear top g skip P D _ hwf hoc hD hnd
+        (lastName_take_serverIssued _ P D M N hN (by omega))
+    · have hpg : list (keysList g skip [] top) P D M N =
+          ⟨entries (keysList g skip [] top) P D M, false, []⟩ := by
+        unfold list; rw [if_neg hN0]; dsimp only; rw [if_neg ht]
+      rw [hpg]
+      simp [Page.toResult]
+
+theorem flatMap_objects_toResult (g : GetObj) : ∀ pages : List Page,
+    (pages.map (Page.toResult g)).flatMap (·.objects) = objsOf g (pages.flatMap (·.items))
+  | [] => rfl
+  | p :: ps => by
+    simp only [List.map_cons, List.flatMap_cons, flatMap_objects_toResult g ps]
+    simp [Page.toResult, objsOf, List.filterMap_append]
+
+theorem flatMap_cps_toResult (g : GetObj) : ∀ pages : List Page,
+    (pages.map (Page.toResult g)).flatMap (·.cps) = cpsOf (pages.flatMap (·.items))
+  | [] => rfl
+  | p :: ps => by
+    simp only [List.map_cons, List.flatMap_cons, flatMap_cps_toResult g ps]
+    simp [Page.toResult, cpsOf, List.filterMap_append]
+
+/-- **walk_paginate_complete**: following the model's own next markers terminates (at most
+|entries| + 1 pages, the last one not truncated) and the pages together hold every specified entry
+exactly once, in order: the objects (with the callback's sizes/ETags) and the common prefixes of
+`Spec.List.entries`. -/
+theorem walk_paginate_complete (top : List Tree) (g : GetObj) (skip : List Bytes) (P D M : Bytes) (N : Nat)
+    (hN : 0 < N)
+    (hwf : wfList top = true) (hoc : ocList top = true) (hD : D = [] ∨ D = [slash])
+    (hnd : ∀ p : Bytes, g (p ++ [slash]) = none)
+    (hpop : populatedList g skip [] top = true)
+    (hsf : noSkipFileList skip top = true)
+    (hroot : rootClean skip P = true)
+    (hmc : markerClear (keysList g skip [] top) P D M = true)
+    (fuel : Nat) (hfuel : (entries (keysList g skip [] top) P D M).length < fuel) :
+    (walkPages top g skip P D N fuel M).flatMap (·.objects) = objsOf g (entries (keysList g skip [] top) P D M) ∧
+    (walkPages top g skip P D N fuel M).flatMap (·.cps) = cpsOf (entries (keysList g skip [] top) P D M) ∧
+    (∃ r, (walkPages top g skip P D N fuel M).getLast? = some r ∧ r.truncated = false) ∧
+    (walkPages top g skip P D N fuel M).length ≤ (entries (keysList g skip [] top) P D M).length + 1 := by
+  rw [walk_pages_eq_spec top g skip P D N hN hwf hoc hD hnd hpop hsf hroot fuel M hmc]
+  obtain ⟨h1, ⟨pg, h2, h3⟩, h4⟩ :=
+    paginate_complete (keysList g skip [] top) P D (keysList_ne_nil g skip top hwf) N hN fuel M hfuel
+  refine ⟨?_, ?_, ?_, ?_⟩
+  · rw [flatMap_objects_toResult, h1]
+  · rw [flatMap_cps_toResult, h1]
+  · refine ⟨pg.toResult g, ?_, h3⟩
+    rw [List.getLast?_map, h2]; rfl
+  · simpa using h4
+
 /-! ### corollaries: true sizes/ETags, no internal names -/
 
 theorem mem_objsOf (g : GetObj) : ∀ (es : List Entry) (o : Obj), o ∈ objsOf g es →
@@ -443,7 +583,15 @@ example : Refines sampleTree fileOnly [[46, 115]] [] [] [97, 47, 98, 98] 2 :=
 example : walk ⟨[], [], [97, 47, 98, 98], 2, fileOnly, [[46, 115]]⟩ sampleTree =
     ⟨[⟨[97, 47, 99], 3, [97, 47, 99]⟩, ⟨[97, 98], 2, [97, 98]⟩], [], true, [97, 98]⟩ := by decide
 example : (eventsList [] sampleTree).Pairwise (fun a b => blt a b = true) :=
-  events_sorted sampleTree [] (by decide) (by decide)
+  (events_sorted sampleTree [] (by decide)).2 (by decide)
+/-- the model's own pagination of `sampleTree` with delimiter `/`, page size 1: [ab]… pages a/, ab, b -/
+example : (walkPages sampleTree fileOnly [[46, 115]] [] [47] 1 5 []).map (fun r => (r.objects.map (·.key), r.cps, r.truncated)) =
+    [([], [[97, 47]], true), ([[97, 98]], [], true), ([[98]], [], false)] := by decide
+example : (walkPages sampleTree fileOnly [[46, 115]] [] [47] 1 5 []).flatMap (·.objects) =
+    objsOf fileOnly (entries (keysList fileOnly [[46, 115]] [] sampleTree) [] [47] []) :=
+  (walk_paginate_complete sampleTree fileOnly [[46, 115]] [] [47] [] 1 (by decide) (by decide) (by decide)
+    (Or.inr rfl) fileOnly_noDirObj (by decide) (by decide) (by decide) (by decide) 5 (by decide)).1
+example : serverIssued (keysList fileOnly [[46, 115]] [] sampleTree) [] [47] [97, 47] = true := by decide
 /-- spec level: three keys, page size 1, delimiter `-` (= 45): pages [a-], [b] -/
 example : (paginate [[97, 45, 98], [97, 45, 99], [98]] [] [45] 1 4 []).map (·.items) =
     [[.cp [97, 45]], [.obj [98]]] := by decide
